@@ -92,7 +92,7 @@ def calibrate(spec, fn, arms, workdir):
     cap = os.path.join(sdir, "cap")
     os.makedirs(cap, exist_ok=True)
     open(os.path.join(sdir, "default.kind"), "w").write("unknown")
-    ctx = A.make_ctx(spec, overrides=dict(solver_command=f"{STUB} {sdir}", solver_timeout_assertion=10.0, solver_threads=1))
+    ctx = A.make_ctx(spec, overrides=dict(solver_command=f"{STUB} {sdir}", solver_timeout_assertion=10.0, solver_threads=1, solver_timeout_branching=3.0))
     A.run(ctx)
     mapping = {}
     for f in os.listdir(cap):
@@ -152,7 +152,9 @@ def scenario(arms, default_ok, replies, delays, flags, res, tag, scale=1.0):
             if delays.get(i):
                 open(os.path.join(spath, base + ".delay"), "w").write(str(delays[i] * scale))
         has_to = any(r == "timeout" for r in replies.values())
-        ov = dict(solver_command=f"{STUB} {spath}", solver_timeout_assertion=(1.5 if has_to else 6.0) * scale, solver_threads=max(1, len(need)))
+        ov = dict(solver_command=f"{STUB} {spath}", solver_timeout_assertion=(1.5 if has_to else 6.0) * scale, solver_threads=max(1, len(need)),
+                  # the default 1 ms branching time limit makes the set of explored paths (hence the path ids the replies are keyed on) depend on machine load
+                  solver_timeout_branching=3.0)
         ov.update(flags)
         if flags.get("solver_threads"):
             ov["solver_threads"] = flags["solver_threads"]
